@@ -70,7 +70,9 @@ def shim_len(x):
     if isinstance(x, Chunk):
         return x.length
     if isinstance(x, FakeStr):
-        raise TypeError("len() of a FakeStr is not modelled")
+        if x.nchars is None:
+            raise TypeError("len() of a FakeStr is not modelled")
+        return x.nchars
     if isinstance(x, list) and any(isinstance(i, Chunk) for i in x):
         n = 0
         for i in x:
@@ -114,8 +116,9 @@ class _ShimIO:
 class FakeStr:
     """A name whose UTF-8 encoding has a symbolic length."""
 
-    def __init__(self, nbytes, tag="name"):
+    def __init__(self, nbytes, tag="name", nchars=None):
         self.nbytes = nbytes
+        self.nchars = nchars        # number of code points (len() of the str); 1-4 UTF-8 bytes each
         self.tag = tag
 
     def encode(self, encoding="utf-8", errors="strict"):
